@@ -999,6 +999,35 @@ STORE = [
          effcalls={"merge": ("mergeFn {0} {1} {2} {3}", ["@0"])},
          call={"Err": "Except.error {0}", "Errors::SameTrackCalculation": "Track.Err.same {0}", "Errors::TrackNotFound": "Track.Err.notFound {0}"}),
 ]
+
+REC_FIELDS = {"attrs.custom_object_id": "custom_object_id", "attrs.last_updated_epoch": "last_updated_epoch", "attrs.scene_id": "scene_id",
+              "attrs.track_length": "track_length", "attrs.observed_boxes": "observed_boxes", "attrs.predicted_boxes": "predicted_boxes",
+              "attrs.observed_features": "observed_features", "attrs.voting_type": "voting_type"}
+REC_METHOD = {"get_attributes": "()", "get_track_id": "track_id", "back": "List.getLast? {0}", "unwrap": "{0}", "clone": "{0}", "into_iter": "{0}", "iter": "{0}",
+              "collect": "{0}", "unwrap_or": "Option.getD {0} {1}", "map": "List.map {1} {0}", "as_ref": "{0}"}
+RECORDS = [
+    dict(group="Record", name="sort_track_of", file="trackers/sort/simple_api.rs", impl=r"impl From<&Track<SortAttributes, SortMetric, Universal2DBox>> for SortTrack \{", fn="from",
+         sig="{β ι : Type} (track_id : Nat) (custom_object_id : ι) (last_updated_epoch scene_id track_length : Nat) (observed_boxes predicted_boxes : List β) : RecG β ι Bool",
+         fieldpath=REC_FIELDS, method=REC_METHOD, path={"VotingType::Positional": "false"},
+         struct={"SortTrack": ("RecG β ι Bool", {"id": "id", "custom_object_id": "custom", "voting_type": "visual", "epoch": "epoch", "scene_id": "scene",
+                                                  "observed_bbox": "observed", "predicted_bbox": "predicted", "length": "length"})}),
+    dict(group="Record", name="visual_track_of", file="trackers/visual_sort/simple_api.rs", impl=r"impl From<&Track<VisualAttributes, VisualMetric, VisualObservationAttributes>> for SortTrack \{", fn="from",
+         sig="{β ι : Type} (track_id : Nat) (custom_object_id : ι) (voting_type : Option Bool) (last_updated_epoch scene_id track_length : Nat) (observed_boxes predicted_boxes : List β) : RecG β ι Bool",
+         fieldpath=REC_FIELDS, method=REC_METHOD, path={"Positional": "false"},
+         struct={"SortTrack": ("RecG β ι Bool", {"id": "id", "custom_object_id": "custom", "voting_type": "visual", "epoch": "epoch", "scene_id": "scene",
+                                                  "observed_bbox": "observed", "predicted_bbox": "predicted", "length": "length"})}),
+    dict(group="Record", name="wasted_sort_track_of", file="trackers/sort.rs", impl=r"impl From<Track<SortAttributes, SortMetric, Universal2DBox>> for WastedSortTrack \{", fn="from",
+         sig="{β : Type} (track_id : Nat) (last_updated_epoch scene_id track_length : Nat) (observed_boxes predicted_boxes : List β) : WastedG β Unit",
+         fieldpath=REC_FIELDS, method=REC_METHOD,
+         struct={"WastedSortTrack": ("WastedG β Unit", {"id": "id", "epoch": "epoch", "scene_id": "scene", "length": "length", "observed_bbox": "observed",
+                                                        "predicted_bbox": "predicted", "predicted_boxes": "predictedH", "observed_boxes": "observedH"})}),
+    dict(group="Record", name="wasted_visual_track_of", file="trackers/visual_sort.rs", impl=r"impl From<Track<VisualAttributes, VisualMetric, VisualObservationAttributes>>\s*for WastedVisualSortTrack\s*\{", fn="from",
+         sig="{β φ : Type} (track_id : Nat) (last_updated_epoch scene_id track_length : Nat) (observed_boxes predicted_boxes : List β) (observed_features : List (Option φ)) : WastedG β (Option φ)",
+         fieldpath=REC_FIELDS, method=dict(REC_METHOD, map="listOrOptMap {1} {0}"), path={"Vec::from_vec": "id"},
+         struct={"WastedVisualSortTrack": ("WastedG β (Option φ)", {"id": "id", "epoch": "epoch", "scene_id": "scene", "length": "length", "observed_bbox": "observed",
+                                                                     "predicted_bbox": "predicted", "predicted_boxes": "predictedH", "observed_boxes": "observedH",
+                                                                     "observed_features": "featuresH"})}),
+]
 # decision kernels over Nat / Rat (no field structure needed)
 GAL_METHOD = {"feature": "featureOf {0}", "attr": "{0}", "as_ref": "{0}", "unwrap": "{0}", "visual_quality": "quality {0}",
                  "partial_cmp": "cmpQ {0} {1}", "len": "List.length {0}", "iter": "{0}", "filter": "List.filter {1} {0}", "count": "List.length {0}"}
@@ -1105,7 +1134,7 @@ LOGIC = [
 def gen(repo, cfgs, header, footer):
     out, unread = [header], []
     for c in cfgs:
-        if c in LOGIC or c in TRACK or c in VOTING or c in TRACK_DIST or c in STORE:
+        if c in LOGIC or c in TRACK or c in VOTING or c in TRACK_DIST or c in STORE or c in RECORDS:
             c = dict(c, scalar=c.get("scalar", "Rat"))
         path = os.path.join(repo, "src", c["file"])
         try:
@@ -1214,6 +1243,34 @@ PRELUDE_TRACKDIST = """open SimVerif
 /-- itertools `cartesian_product`: every left element with every right element, left-major -/
 def cartProd {α β : Type} (l : List α) (r : List β) : List (α × β) := l.flatMap (fun a => r.map (fun b => (a, b)))
 """
+PRELUDE_RECORD = """/-- `SortTrack`: the record `predict` returns for a detection -/
+structure RecG (β ι ν : Type) where
+  id : Nat
+  custom : ι
+  visual : ν
+  epoch : Nat
+  scene : Nat
+  observed : Option β
+  predicted : Option β
+  length : Nat
+/-- `WastedSortTrack` / `WastedVisualSortTrack` -/
+structure WastedG (β F : Type) where
+  id : Nat
+  epoch : Nat
+  scene : Nat
+  length : Nat
+  observed : Option β
+  predicted : Option β
+  predictedH : List β
+  observedH : List β
+  featuresH : List F := []
+/-- `.iter().map(f)` over the history and `Option::map(f)` inside it share the method name -/
+class ListOrOptMap (C : Type → Type) where
+  mapC : {a b : Type} → (a → b) → C a → C b
+instance : ListOrOptMap List := ⟨List.map⟩
+instance : ListOrOptMap Option := ⟨Option.map⟩
+def listOrOptMap {C : Type → Type} [ListOrOptMap C] {a b : Type} (f : a → b) (x : C a) : C b := ListOrOptMap.mapC f x
+"""
 PRELUDE_SWAP = """/-- `slice::swap(i, j)` (indices in range: the code pushes an element first) -/
 def listSwap {α : Type} (l : List α) (i j : Nat) : List α :=
   match l[i]?, l[j]? with
@@ -1268,6 +1325,7 @@ def main():
     jobs.append(("LVoting.lean", VOTING, "import SimVerif.Gen.LBase\nimport SimVerif.Model.Voting\n" + HEADER_L + PRELUDE_VOTING, "SimVerif.Gen.L"))
     jobs.append(("LTrack.lean", TRACK, HEADER_L + PRELUDE_TRACK, "SimVerif.Gen.L"))
     jobs.append(("LStoreCmd.lean", STORE, "import SimVerif.Gen.LBase\nimport SimVerif.Model.Track\n" + HEADER_L + "open SimVerif\n", "SimVerif.Gen.L"))
+    jobs.append(("LRecord.lean", RECORDS, HEADER_L + PRELUDE_RECORD, "SimVerif.Gen.L"))
     jobs.append(("LTrackDist.lean", TRACK_DIST, "import SimVerif.Gen.LTrack\nimport SimVerif.Model.Track\n" + HEADER_L + PRELUDE_TRACKDIST, "SimVerif.Gen.L"))
     jobs.append(("LConstr.lean", [c for c in LOGIC if c["group"] == "Constr"], HEADER_L + PRELUDE_DEDUP, "SimVerif.Gen.L"))
     jobs.append(("LBase.lean", [], HEADER_L + PRELUDE_BASE + PRELUDE_MAP, "SimVerif.Gen.L"))
